@@ -12,7 +12,7 @@ from typing import Any, Callable
 from .cfg import CFG
 from .db import AnalysisError, FuncInfo, ProgramDB
 from .report import VERIF, Report
-from .variants import Variant, VariantNotApplicable, apply_patch_in_memory, apply_variant
+from .variants import Variant, VariantNotApplicable, apply_patch_in_memory, apply_variant, rename_twins
 
 
 class Ctx:
@@ -90,12 +90,29 @@ def selftest(mod: Any, repo: str, seed: int) -> dict:
             continue
         jobs.append(("seeded", os.path.basename(os.path.dirname(mpath)), (mod.__name__, repo, ov, "quick")))
 
+    # behaviour-preserving rename twins over the files the property is anchored in
+    twin_files: list[str] = []
+    try:
+        with open(os.path.join(VERIF, "properties.jsonl"), encoding="utf-8") as fh:
+            for line in fh:
+                p = json.loads(line)
+                if p.get("id") == mod.ID:
+                    twin_files = list(p.get("anchors", {}).get("files", []))
+    except OSError:
+        pass
+    twin_files += [f for f in getattr(mod, "TWIN_FILES", []) if f not in twin_files]
+    n_twins = 0
+    for rel in twin_files:
+        for desc, ov in rename_twins(repo, rel):
+            n_twins += 1
+            jobs.append(("twin", desc, (mod.__name__, repo, ov, "quick")))
+
     results: list[tuple[list[str], str | None]] = []
     if jobs:
         workers = min(16, len(jobs))
         if workers > 1:
             with ProcessPoolExecutor(max_workers=workers) as ex:
-                results = list(ex.map(_eval_overlay, [j[2] for j in jobs]))
+                results = list(ex.map(_eval_overlay, [j[2] for j in jobs], chunksize=4))
         else:
             results = [_eval_overlay(j[2]) for j in jobs]
 
@@ -104,6 +121,7 @@ def selftest(mod: Any, repo: str, seed: int) -> dict:
     details: list[dict] = []
     seeded_total = seeded_detected = 0
     seeded_details: list[dict] = []
+    twin_alarms: list[dict] = []
     for (kind, obj, _), (fired, err) in zip(jobs, results):
         if kind == "variant":
             v: Variant = obj
@@ -118,6 +136,9 @@ def selftest(mod: Any, repo: str, seed: int) -> dict:
             details.append({"variant": v.name, "file": v.rel, "expected": sorted(v.expect) or "silent", "fired": fired, "as_expected": good})
             if not good:
                 unexpected.append({"variant": v.name, "expected": sorted(v.expect) or "silent", "fired": fired, "error": err})
+        elif kind == "twin":
+            if fired:
+                twin_alarms.append({"twin": obj, "fired": fired, "error": err})
         else:
             seeded_total += 1
             det = bool(fired)
@@ -134,5 +155,6 @@ def selftest(mod: Any, repo: str, seed: int) -> dict:
         "seeded_total": seeded_total,
         "seeded_detected": seeded_detected,
         "seeded": seeded_details,
+        "rename_twins": {"files": twin_files, "generated": n_twins, "silent": n_twins - len(twin_alarms), "false_alarms": twin_alarms},
         "note": "self-test outcomes never change the exit code of the property check",
     }
